@@ -3,7 +3,7 @@
 #include "spec_csv.h"
 /*@ENUM quote_style_kind@*/
 #define VX_IN_MAX 100000000
-struct csv_encoder { int quote_style_; char field_delimiter_, quote_char_, quote_escape_char_; };
+struct csv_encoder { int quote_style_; char field_delimiter_, quote_char_, quote_escape_char_; char line_delimiter_[4]; size_t line_delimiter_len; /* std::string line_delimiter_ */ };
 static char* vx_in; static size_t vx_len, vx_w;   /* field content, witness position */
 static char vx_q, vx_e;
 /* escape_string: output monitor = S-CSV quoted-field decoder, compared with the content on the fly */
@@ -27,6 +27,8 @@ static void vx_push(char c)
 static void vx_escape_call(void) { if (vx_escape_calls != 0) vx_order_bad = true; vx_escape_calls++; }
 /* std::char_traits::find(s, n, c) != nullptr  iff  some s[i] == c; the model guarantees the "if" direction for the witness position */
 static bool vx_find(char c) { bool r = nondet_bool(); __CPROVER_assume(!(vx_w < vx_len && vx_in[vx_w] == c) || r); __CPROVER_assume(!r || vx_len > 0); return r; }
+/* string_view::find_first_of(set) != npos  iff  some s[i] is in the set (same one-directional model; the set is a short option string) */
+static bool vx_find_set(const char* set, size_t n) { bool in = false; for (size_t i = 0; i < 4; ++i) if (i < n && vx_w < vx_len && vx_in[vx_w] == set[i]) in = true; bool r = nondet_bool(); __CPROVER_assume(!in || r); __CPROVER_assume(!r || vx_len > 0); return r; }
 
 /*@FUNC escape_string@*/
 /*@FUNC write_string_value@*/
@@ -51,6 +53,7 @@ void h_wsv(void)
 {
     setup(); vx_w = nondet_size(); __CPROVER_assume(vx_w < vx_len);
     vx_enc.quote_style_ = nondet_int(); vx_enc.field_delimiter_ = (char)nondet_u8(); vx_enc.quote_char_ = vx_q; vx_enc.quote_escape_char_ = vx_e;
+    for (int i = 0; i < 4; ++i) vx_enc.line_delimiter_[i] = (char)nondet_u8(); vx_enc.line_delimiter_len = nondet_size(); __CPROVER_assume(vx_enc.line_delimiter_len <= 4);
     write_string_value(&vx_enc);
 }
 #endif
